@@ -445,6 +445,12 @@ class J1939_22:
                             if should_break:
                                 break
 
+                        if buf['state'] == self.SendBufferState.SENDING_RTS_CTS and buf['next_packet_to_send'] >= buf['num_segments']:
+                            # nothing left to send (e.g. a CTS positioned behind the last segment):
+                            # wait for the next CTS instead of staying due forever
+                            buf['state'] = self.SendBufferState.WAITING_CTS
+                            buf['deadline'] = time.time() + self.Timeout.T3
+
                         # recalc next wakeup
                         if next_wakeup > buf['deadline']:
                             next_wakeup = buf['deadline']
